@@ -1,5 +1,6 @@
 """Calls: contracts (modular), dynamic dispatch, inlining of small helpers, constructors, built-ins."""
 import ast
+import os
 import z3
 
 from .values import (V, Int, Str, Bool, SeqV, SeqS, NONE, ABSENT, TRUE, FALSE, mk_bool, mk_int, mk_str,
@@ -427,6 +428,8 @@ class CallMixin:
             return res
         args, err = con.bind(self, st, pos, kw)
         if err:
+            if os.environ.get('VERIF_PROGRESS') == '1':
+                print('  bind of %s fails with %s for %d positional / %s keyword arguments' % (con.qual, err, len(pos), sorted(kw)), flush=True)
             return exc(st, err)
         cx = CX(self, con, args, st.fork(), site=st.fn)
         pre = con.pre(cx) if con.pre else []
@@ -439,6 +442,21 @@ class CallMixin:
         for label, p in _labelled(pre):
             self.oblige(st, '%s/call:%s/requires:%s' % (st.ghost.get('$top', '?'), con.qual, label), p, 'call-pre')
             st.assume(p)        # later obligations on this path may rely on it (it is proved separately)
+        if con.qual == st.ghost.get('$top') and st.ghost.get('$cx') is not None:
+            # a call of the function under verification to itself: its own contract may only be assumed for a smaller
+            # instance (well-founded measure), otherwise the proof would be circular (partial correctness only)
+            if con.decreases is None:
+                self.oblige(st, '%s/termination:self-call-needs-a-measure' % con.qual, z3.BoolVal(False), 'termination')
+            else:
+                m_callee, m_top = con.decreases(cx), con.decreases(st.ghost['$cx'])
+                if not isinstance(m_callee, (list, tuple)):
+                    m_callee, m_top = [m_callee], [m_top]
+                # lexicographic order on tuples of non-negative integers
+                lt = z3.BoolVal(False)
+                for i in reversed(range(len(m_callee))):
+                    lt = z3.Or(m_callee[i] < m_top[i], z3.And(m_callee[i] == m_top[i], lt))
+                self.oblige(st, '%s/termination:measure-decreases-and-is-bounded' % con.qual,
+                            z3.And(z3.And([x >= 0 for x in m_callee]), lt), 'termination')
         out = []
         outcomes = [('ret', None)] + [('exc', e) for e in con.raises]
         vals = {}
